@@ -241,7 +241,7 @@ def train_multi_agent_off_policy(
                 }
 
             start_time = time.time()
-            for idx_step in range(evo_steps // num_envs):
+            for idx_step in range(max(1, evo_steps // num_envs)):
                 # Get next action from agent
                 cont_actions, discrete_action = agent.get_action(
                     obs=obs, training=True, infos=info
